@@ -530,6 +530,10 @@ class Spec:
                 if t[2] != w:
                     dup = len(set(split_list(t[2]))) != len(split_list(t[2]))
                     raise Mismatch('get-lists-pair-twice' if dup else 'get', f'get({T}) = {t[2]}, required {w}')
+            elif tag == 'hasx':
+                if len(set(t[2:5])) != 1:
+                    raise Mismatch('has_component', f'queries by the protocol type EventHandler disagree for entity '
+                                   f'{t[1]}: has_component={t[2]} get_component={t[3]} get()={t[4]}')
             elif tag == 'getall':
                 want = sorted(e * 100000 + c for e, row in self.attached.items() for c in row.values())
                 w = ','.join(f'{p // 100000}:{p % 100000}' for p in want) or '-'
